@@ -962,7 +962,18 @@ impl Serialize for Schema {
                 let mut map = serializer.serialize_map(None)?;
                 match inner {
                     InnerDecimalSchema::Fixed(fixed_schema) => {
-                        map = fixed_schema.serialize_to_map::<S>(map)?;
+                        // `precision` and `scale` are written below from the decimal itself;
+                        // writing the attributes of the same name too would duplicate the keys.
+                        if fixed_schema.attributes.contains_key("precision")
+                            || fixed_schema.attributes.contains_key("scale")
+                        {
+                            let mut fixed = fixed_schema.clone();
+                            fixed.attributes.remove("precision");
+                            fixed.attributes.remove("scale");
+                            map = fixed.serialize_to_map::<S>(map)?;
+                        } else {
+                            map = fixed_schema.serialize_to_map::<S>(map)?;
+                        }
                     }
                     InnerDecimalSchema::Bytes => {
                         map.serialize_entry("type", "bytes")?;
